@@ -38,7 +38,7 @@ RULE = ('conversions: every component tuple of length 1..5 over {0,1,9,10,99,100
         'VersionPredicate: conjunctions of 1..3 comparisons over the six operators (all-true, exactly-one-false, '
         'range, random) x candidates on and around every bound; malformed strings. non-trivial = more than one '
         'component / two different texts / any predicate; distinct by the texts handed to the code under test')
-REQUIRED_CLAUSES = ['roundtrip', 'str-vs-tuple-input', 'int-order', 'suffix-ignored',
+REQUIRED_CLAUSES = ['under-lazy-translation', 'documented-keyword-call', 'roundtrip', 'str-vs-tuple-input', 'int-order', 'suffix-ignored',
                     'non-numeric-ValueError', 'compat', 'predicate-parses', 'satisfied_by',
                     'malformed-predicate-ValueError', 'model-vs-packaging-selfcheck']
 ASSUMPTIONS = ['"major number" is the first number of the release segment (epochs are not part of it)',
@@ -291,9 +291,15 @@ EVAL = {'rt': eval_rt, 'order': eval_order, 'suffix': eval_suffix, 'bad': eval_b
         'compat': eval_compat, 'pred': eval_pred, 'malformed': eval_malformed}
 
 
-def evaluate(ctx, case):
+def _evaluate_plain(ctx, case):
     from oslo_utils import versionutils as vu
+    from vlib import callstyle
+    vu = callstyle.proxy(vu)
     EVAL[case['kind']](ctx, case, vu)
+
+
+from vlib import envmodes  # noqa: E402
+evaluate = envmodes.evaluate_with_modes(_evaluate_plain)
 
 
 # ----------------------------------------------------------------------
@@ -622,6 +628,8 @@ def run(ctx):
 
     # informative only: the statement fixes round trip and order, not the radix of the encoding
     from oslo_utils import versionutils as vu
+    from vlib import callstyle
+    vu = callstyle.proxy(vu)
     radix, _e = call(vu.convert_version_to_int, '1.0')
     if is_int(radix):
         ctx.extra['convert_version_to_int("1.0") (radix of the encoding; recorded, not asserted)'] = radix
@@ -660,6 +668,26 @@ def run(ctx):
             parts = [str(c) for c in v]
             parts[pos] += name + '1'
             emit({'kind': 'bad', 'text': '.'.join(parts), 'cls': 'must-reject'}, 'bad/must-reject')
+    # a last component that merely ENDS like a documented suffix: digits, extra letters, then name+digits
+    import re as _re
+    documented = _re.compile(r'^[0-9]+(a|alpha|b|beta|rc)[0-9]+$')
+    rj = ctx.rng('suffix-junk')
+    junk_last = set()
+    for name in SUFFIX_NAMES:
+        for junk in ['a', 'b', 'r', 'c', 'rc', 'h', 't', 'l', 'e', 'x', name[0], name[-1], name, name[::-1], 'p', 'al', 'ph', 'et']:
+            for num in ('1', '2', '10'):
+                for head in ('3', '0', '10'):
+                    junk_last.add(head + junk + name + num)
+                junk_last.add(junk + name + num)                    # no number at all in front
+    for _ in range(ctx.pick(300, 5000)):
+        name = rj.choice(SUFFIX_NAMES)
+        junk = ''.join(rj.choice('abcehlprt' + name) for _ in range(rj.randrange(1, 4)))
+        junk_last.add(str(rj.randrange(0, 1000)) + junk + name + str(rj.randrange(0, 100)))
+    for last in sorted(junk_last):
+        if documented.match(last):
+            continue
+        for front in ('1.2.', '7.', ''):
+            emit({'kind': 'bad', 'text': front + last, 'cls': 'must-reject'}, 'bad/junk-before-suffix')
     for comp in BAD_COMPONENTS:
         for n in range(1, 6):
             for pos in range(n):
